@@ -121,6 +121,10 @@ func runDeterminism(id, tier string, runs int) int {
 					if json.Unmarshal(raw, &inf2) != nil || inf2.Run < start {
 						break
 					}
+					if inf2.Recycle {
+						start = inf2.Run
+						continue
+					}
 					sig, _ := classifyDeath(id, runErr, se.String(), core.Info{})
 					mu.Lock()
 					results[ci][inf2.Run] = "died:" + sig
